@@ -69,11 +69,16 @@ impl PoolImpl {
     pub open spec fn lo(&self) -> int { self.finality_tracker.first_unpruned_slot.0 as int }
     pub open spec fn hi(&self) -> int { self.finality_tracker.highest_finalized_slot.0 as int }
     // representation invariant of the pool
-    pub open spec fn wf(&self) -> bool {
+    // ... the part every operation re-establishes (PROVED: `final(self).wf_states()` on each of them) ...
+    pub open spec fn wf_states(&self) -> bool {
         &&& forall|s: Slot| #[trigger] self.slot_states@.contains_key(s) ==> self.slot_states@[s].wf()
             && self.slot_states@[s].slot == s && self.slot_states@[s].epoch_info == self.epoch_info
         &&& spec_fresh_slot_state(Slot(0), self.epoch_info).wf_epoch()
         &&& self.lo() <= self.hi()
+    }
+    // ... and the machine-arithmetic assumption that slot numbers stay clear of u64::MAX (never re-established: ASSUMED at entry)
+    pub open spec fn wf(&self) -> bool {
+        &&& self.wf_states()
         &&& self.hi() + 2 * SLOTS_PER_EPOCH <= u64::MAX
     }
     // "slot window bounds": too old (below the pruning watermark) or too far in the future
@@ -210,6 +215,54 @@ impl SlotState {
     }
 }
 // the block a certificate certifies (notar, notar-fallback, fast-final), if any
+// what storing certificate c does to the certificates of its slot (the postcondition PROVED for SlotState::add_cert)
+pub open spec fn certs_added(o: SlotState, n: SlotState, c: Cert) -> bool {
+    match c {
+        Cert::Notar(x) => n.certificates.notar == Some(x) && n.certificates.notar_fallback == o.certificates.notar_fallback
+            && n.certificates.skip == o.certificates.skip && n.certificates.fast_finalize == o.certificates.fast_finalize
+            && n.certificates.finalize == o.certificates.finalize,
+        Cert::NotarFallback(x) => n.certificates.notar_fallback@ == (if o.has_nf_cert(x.block_hash) { o.certificates.notar_fallback@ } else { o.certificates.notar_fallback@.push(x) })
+            && n.certificates.notar == o.certificates.notar
+            && n.certificates.skip == o.certificates.skip && n.certificates.fast_finalize == o.certificates.fast_finalize
+            && n.certificates.finalize == o.certificates.finalize,
+        Cert::Skip(x) => n.certificates.skip == Some(x) && n.certificates.notar_fallback == o.certificates.notar_fallback
+            && n.certificates.notar == o.certificates.notar && n.certificates.fast_finalize == o.certificates.fast_finalize
+            && n.certificates.finalize == o.certificates.finalize,
+        Cert::FastFinal(x) => n.certificates.fast_finalize == Some(x) && n.certificates.notar_fallback == o.certificates.notar_fallback
+            && n.certificates.skip == o.certificates.skip && n.certificates.notar == o.certificates.notar
+            && n.certificates.finalize == o.certificates.finalize,
+        Cert::Final(x) => n.certificates.finalize == Some(x) && n.certificates.notar_fallback == o.certificates.notar_fallback
+            && n.certificates.skip == o.certificates.skip && n.certificates.fast_finalize == o.certificates.fast_finalize
+            && n.certificates.notar == o.certificates.notar,
+    }
+}
+// add_valid_cert: `a` is the state right after the certificate was stored, `f` a later state that keeps a subset of the slot
+// states with their certificates
+pub proof fn lemma_certs_after(pre: &PoolImpl, a: &PoolImpl, f: &PoolImpl, cert: Cert)
+    requires
+        a.slot_states@ == pre.slot_states@.insert(cert.spec_slot(), a.slot_states@[cert.spec_slot()]),
+        certs_added(pre.st(cert.spec_slot()), a.slot_states@[cert.spec_slot()], cert),
+        forall|sl: Slot| #[trigger] f.slot_states@.contains_key(sl) ==> a.slot_states@.contains_key(sl) && f.slot_states@[sl].certificates == a.slot_states@[sl].certificates,
+    ensures
+        f.slot_states@.contains_key(cert.spec_slot()) ==> certs_added(pre.st(cert.spec_slot()), f.slot_states@[cert.spec_slot()], cert),
+        forall|sl: Slot| sl != cert.spec_slot() && #[trigger] f.slot_states@.contains_key(sl) ==> f.slot_states@[sl].certificates == pre.st(sl).certificates,
+{
+    assert forall|sl: Slot| sl != cert.spec_slot() && #[trigger] f.slot_states@.contains_key(sl) implies f.slot_states@[sl].certificates == pre.st(sl).certificates by {
+        assert(a.slot_states@.contains_key(sl));
+        assert(pre.slot_states@.contains_key(sl));
+    }
+}
+// C08 at the pool: the certificate that completes the proof of a slot - a fast-finalization certificate for a slot without a
+// final hash, a finalization certificate meeting a notarized block, a notarization certificate meeting a pending finalization
+pub open spec fn cert_finalizes(t: &FinalityTracker, c: Cert) -> bool {
+    match c {
+        Cert::FastFinal(x) => fin_hash(t.st(x.slot)) is None,
+        Cert::Final(x) => st_is_notarized(t.st(x.slot)),
+        Cert::Notar(x) => t.st(x.slot) == Some(FinalizationStatus::FinalPendingNotar),
+        _ => false,
+    }
+}
+pub open spec fn max_int(a: int, b: int) -> int { if a >= b { a } else { b } }
 pub open spec fn cert_certifies(c: Cert) -> Option<BlockId> {
     match c {
         Cert::Notar(x) => Some((x.slot, x.block_hash)),
@@ -273,6 +326,39 @@ pub proof fn lemma_waiting_ok_transfer(o: &PoolImpl, n: &PoolImpl)
         forall|p: BlockId, c: BlockId| #[trigger] o.waits(p, c) ==> n.waits(p, c),
 {
     assert forall|p: BlockId, c: BlockId| #[trigger] n.waits(p, c) implies n.registered(c) by { assert(o.waits(p, c)); }
+}
+// the slot state a slot has or gets on first use is well formed in a well-formed pool
+pub proof fn lemma_st_wf(o: &PoolImpl, slot: Slot)
+    requires o.wf_states(),
+    ensures o.st(slot).wf() && o.st(slot).slot == slot && o.st(slot).epoch_info == o.epoch_info,
+{
+    broadcast use axiom_fresh_slot_state;
+    if !o.slot_states@.contains_key(slot) {
+        let f = spec_fresh_slot_state(slot, o.epoch_info);
+        let g = spec_fresh_slot_state(Slot(0), o.epoch_info);
+        assert(f.epoch_info == g.epoch_info);
+        assert(f.wf_epoch());
+    }
+}
+// wf_states carries over when one slot's state is replaced by one with the same votes and counters (what every SlotState
+// operation the pool calls, except add_vote, guarantees)
+pub proof fn lemma_wf_states_update(o: &PoolImpl, n: &PoolImpl, slot: Slot)
+    requires
+        o.wf_states(),
+        n.epoch_info == o.epoch_info,
+        n.finality_tracker == o.finality_tracker,
+        n.slot_states@ == o.slot_states@.insert(slot, n.slot_states@[slot]),
+        n.slot_states@[slot].same_votes(&o.st(slot)),
+        n.slot_states@[slot].voted_stakes == o.st(slot).voted_stakes,
+    ensures
+        n.wf_states(),
+{
+    lemma_st_wf(o, slot);
+    SlotState::lemma_wf_transfer(&o.st(slot), &n.slot_states@[slot], Pending::Nothing);
+    assert forall|s: Slot| #[trigger] n.slot_states@.contains_key(s) implies n.slot_states@[s].wf()
+        && n.slot_states@[s].slot == s && n.slot_states@[s].epoch_info == n.epoch_info by {
+        if s != slot { assert(o.slot_states@.contains_key(s)); }
+    }
 }
 // what add_valid_cert knows after telling the blocks waiting for `bid`: `m` is the state before, `n` after
 // PoolImpl::notify_waiting_children, `pre` the state the certificate was added to
@@ -795,6 +881,8 @@ requires
         // what ValidatedVote::try_new guarantees (C09): the signer is a validator of the epoch
         (vote.vote.spec_signer().0 as int) < old(self).epoch_info.epoch.validators@.len(),
 ensures
+        // [C08.pool_invariant_is_kept C06.pool_invariant_is_kept C03.pool_invariant_is_kept C04.pool_invariant_is_kept]
+        final(self).wf_states(),
         // [C18.finalized_slot_is_backed_by_stored_certificates C10.finalized_slot_is_backed_by_stored_certificates]
         final(self).fin_ok(),
         // [C08.nothing_is_tracked_for_a_decided_slot C03.nothing_is_tracked_for_a_decided_slot] also when the vote completes several
@@ -832,6 +920,11 @@ before `return Err(AddVoteError::Slashable(offence));`
             assert forall|s: Slot| #[trigger] pre.slot_states@.contains_key(s) && s.0 >= pre.lo()
                 implies f.slot_states@.contains_key(s) && certs_grow(pre.slot_states@[s], f.slot_states@[s]) by { if s == slot {} }
             lemma_fin_ok_transfer(&pre, &f);
+            lemma_st_wf(&pre, slot);
+            assert forall|s: Slot| #[trigger] f.slot_states@.contains_key(s) implies f.slot_states@[s].wf()
+                && f.slot_states@[s].slot == s && f.slot_states@[s].epoch_info == f.epoch_info by {
+                if s != slot { assert(pre.slot_states@.contains_key(s)); }
+            }
         }
 before `return Err(AddVoteError::Duplicate);`
         proof {
@@ -841,6 +934,11 @@ before `return Err(AddVoteError::Duplicate);`
             assert forall|s: Slot| #[trigger] pre.slot_states@.contains_key(s) && s.0 >= pre.lo()
                 implies f.slot_states@.contains_key(s) && certs_grow(pre.slot_states@[s], f.slot_states@[s]) by { if s == slot {} }
             lemma_fin_ok_transfer(&pre, &f);
+            lemma_st_wf(&pre, slot);
+            assert forall|s: Slot| #[trigger] f.slot_states@.contains_key(s) implies f.slot_states@[s].wf()
+                && f.slot_states@[s].slot == s && f.slot_states@[s].epoch_info == f.epoch_info by {
+                if s != slot { assert(pre.slot_states@.contains_key(s)); }
+            }
         }
 after `let (new_certs, votor_events, blocks_to_repair) = slot_state.add_vote(vote, voter_stake);`
         proof {
@@ -848,6 +946,12 @@ after `let (new_certs, votor_events, blocks_to_repair) = slot_state.add_vote(vot
             assert forall|c: BlockId| #[trigger] pre.registered(c) implies f.registered(c) by { if c.0 == slot {} }
             lemma_waiting_ok_transfer(&pre, &f);
             assert(f.retained_ok());
+            lemma_st_wf(&pre, slot);
+            assert forall|s: Slot| #[trigger] f.slot_states@.contains_key(s) implies f.slot_states@[s].wf()
+                && f.slot_states@[s].slot == s && f.slot_states@[s].epoch_info == f.epoch_info by {
+                if s != slot { assert(pre.slot_states@.contains_key(s)); }
+            }
+            assert(f.wf_states());
             assert forall|s: Slot| #[trigger] pre.slot_states@.contains_key(s) && s.0 >= pre.lo()
                 implies f.slot_states@.contains_key(s) && certs_grow(pre.slot_states@[s], f.slot_states@[s]) by { if s == slot {} }
             lemma_fin_ok_transfer(&pre, &f);
@@ -857,14 +961,14 @@ after `let (new_certs, votor_events, blocks_to_repair) = slot_state.add_vote(vot
             }
         }
 loop 0
-        invariant self.waiting_ok() && self.retained_ok(), self.fin_ok(),
+        invariant self.waiting_ok() && self.retained_ok(), self.fin_ok(), self.wf_states(),
             forall|k: int| 0 <= k < verif_it1.rest().len() ==> (#[trigger] verif_it1.rest()[k]).spec_slot().0 < u64::MAX,
         decreases verif_it1.rest().len(),
 loop 1
-        invariant self.waiting_ok() && self.retained_ok(), self.fin_ok(),
+        invariant self.waiting_ok() && self.retained_ok(), self.fin_ok(), self.wf_states(),
         decreases verif_it2.rest().len(),
 loop 2
-        invariant self.waiting_ok() && self.retained_ok(), self.fin_ok(),
+        invariant self.waiting_ok() && self.retained_ok(), self.fin_ok(), self.wf_states(),
         decreases verif_it3.rest().len(),
 @*/
 
@@ -873,6 +977,8 @@ props C08 C06
 rewrite[R8] `self.slot_states.split_off(` => `self.slot_states.verif_split_off(`
 rewrite?[R8] `self.s2n_waiting_parent_cert.retain(|_, children| { children.retain(|(slot, _)| *slot >= first_unpruned_slot); !children.is_empty() });` => `verif_retain_waiting(&mut self.s2n_waiting_parent_cert, first_unpruned_slot);`
 ensures
+        // [C08.pool_invariant_is_kept C06.pool_invariant_is_kept C03.pool_invariant_is_kept C04.pool_invariant_is_kept]
+        old(self).wf_states() ==> final(self).wf_states(),
         // [C18.finalized_slot_is_backed_by_stored_certificates C10.finalized_slot_is_backed_by_stored_certificates]
         old(self).fin_ok() ==> final(self).fin_ok(),
         // [C08.pool_retains_exactly_the_unpruned_slots]
@@ -907,8 +1013,21 @@ requires
         old(self).wf(),
         old(self).waiting_ok() && old(self).retained_ok(),
 ensures
+        // [C08.pool_invariant_is_kept C06.pool_invariant_is_kept C03.pool_invariant_is_kept C04.pool_invariant_is_kept]
+        final(self).wf_states(),
         // [C18.finalized_slot_is_backed_by_stored_certificates C10.finalized_slot_is_backed_by_stored_certificates]
         final(self).fin_ok(),
+        // [C08.pool_reports_finalized_exactly_when_the_certificates_justify C18.replayed_proof_finalizes_the_slot]
+        (r is Ok && cert_finalizes(&old(self).finality_tracker, cert.cert)) ==> final(self).hi() == max_int(old(self).hi(), cert.cert.spec_slot().0 as int),
+        !(r is Ok && cert_finalizes(&old(self).finality_tracker, cert.cert)) ==> final(self).hi() == old(self).hi(),
+        (r is Ok && cert.cert is Final && old(self).finality_tracker.st(cert.cert.spec_slot()) is None)
+            ==> final(self).finality_tracker.st(cert.cert.spec_slot()) == Some(FinalizationStatus::FinalPendingNotar),
+        final(self).epoch_info == old(self).epoch_info,
+        // [C03.accepted_certificate_is_stored_and_the_others_stay C18.accepted_certificate_is_stored_and_the_others_stay]
+        (r is Ok && final(self).slot_states@.contains_key(cert.cert.spec_slot()))
+            ==> certs_added(old(self).st(cert.cert.spec_slot()), final(self).slot_states@[cert.cert.spec_slot()], cert.cert),
+        forall|sl: Slot| (sl != cert.cert.spec_slot() || r is Err) && #[trigger] final(self).slot_states@.contains_key(sl)
+            ==> final(self).slot_states@[sl].certificates == old(self).st(sl).certificates,
         // [C08.nothing_is_tracked_for_a_decided_slot]
         final(self).retained_ok(),
         // [C06.waiting_child_is_still_registered C08.waiting_child_is_still_registered]
@@ -1041,17 +1160,23 @@ impl SlotState {
 /*@ stub units/slot_state/unit.rs :: src/consensus/pool/slot_state.rs :: impl SlotState/fn add_cert @*/
 /*@ stub units/slot_state/unit.rs :: src/consensus/pool/slot_state.rs :: impl SlotState/fn notify_parent_known @*/
 /*@ stub units/slot_state/unit.rs :: src/consensus/pool/slot_state.rs :: impl SlotState/fn is_notar_fallback_or_stronger @*/
-    // SlotState::notify_parent_certified (contract proved in unit slot_state) with its panic site - panic!("parent not known")
-    // unless the block was registered - as a precondition; of its other precondition, the slot state's own well-formedness,
-    // only this part is carried through the pool functions below, the rest stays ASSUMED here.
+    // SlotState::notify_parent_certified (contract proved in unit slot_state; the clauses used here are copied by hand so that the
+    // panic site - panic!("parent not known") unless the block was registered - keeps its pool-level labels)
     #[verifier::external_body]
     pub fn verif_notify_parent_certified(&mut self, hash: BlockHash) -> (r: Option<Either<PoolEvent, BlockId>>)
         requires
             // [C06.waiting_child_is_still_registered C08.waiting_child_is_still_registered C03.waiting_child_is_still_registered]
             old(self).parents@.contains_key(hash),
+            // [C06.slot_state_is_well_formed_when_told C08.slot_state_is_well_formed_when_told] (the other precondition proved necessary
+            // in unit slot_state; carried by the pool's own invariant wf_states())
+            old(self).wf(),
         ensures
             final(self).parents@ == old(self).parents@.insert(hash, ParentStatus::Certified),
             final(self).certificates == old(self).certificates,
+            final(self).votes == old(self).votes,
+            final(self).voted_stakes == old(self).voted_stakes,
+            final(self).slot == old(self).slot,
+            final(self).epoch_info == old(self).epoch_info,
     { unimplemented!() }
 }
 impl PoolImpl {
@@ -1061,6 +1186,8 @@ elide-async
 requires
         old(self).waiting_ok(),
 ensures
+        // [C08.pool_invariant_is_kept C06.pool_invariant_is_kept C03.pool_invariant_is_kept C04.pool_invariant_is_kept]
+        old(self).wf_states() ==> final(self).wf_states(),
         // [C18.finalized_slot_is_backed_by_stored_certificates C10.finalized_slot_is_backed_by_stored_certificates]
         old(self).fin_ok() ==> final(self).fin_ok(),
         final(self).epoch_info == old(self).epoch_info,
@@ -1100,8 +1227,11 @@ elide-async
 rewrite[R4] `for (child_slot, child_hash) in children {` => `let mut verif_c: usize = 0; while verif_c < children.len() { let (child_slot, child_hash) = verif_clone_block_id(&children[verif_c]); verif_c += 1;`
 rewrite*[R8] `.notify_parent_certified(` => `.verif_notify_parent_certified(`
 requires
+        old(self).wf_states(),
         old(self).waiting_ok(),
 ensures
+        // [C08.pool_invariant_is_kept C06.pool_invariant_is_kept C03.pool_invariant_is_kept C04.pool_invariant_is_kept]
+        final(self).wf_states(),
         // [C18.finalized_slot_is_backed_by_stored_certificates C10.finalized_slot_is_backed_by_stored_certificates]
         old(self).fin_ok() ==> final(self).fin_ok(),
         final(self).epoch_info == old(self).epoch_info,
@@ -1157,6 +1287,7 @@ loop 0
             self.epoch_info == pre.epoch_info,
             self.finality_tracker == pre.finality_tracker,
             pre.waiting_ok(),
+            self.wf_states(),
             self.extends(&pre),
             forall|k: int| 0 <= k < verif_c ==> self.st((#[trigger] children@[k]).0).parents@.contains_key(children@[k].1)
                 && self.st(children@[k].0).parents@[children@[k].1] == ParentStatus::Certified,
@@ -1169,9 +1300,11 @@ before `let Some(output) = self .slot_state(child_slot) .verif_notify_parent_cer
             assert(pre.waits(*block_id, (child_slot, child_hash)));
             assert(pre.registered((child_slot, child_hash)));
             assert(self.registered((child_slot, child_hash)));
+            lemma_st_wf(self, child_slot);
         }
 before `continue;`
         proof {
+            lemma_wf_states_update(&bef, self, child_slot);
             assert forall|c: BlockId| #[trigger] pre.registered(c) implies self.registered(c) by {
                 assert(bef.registered(c));
                 if c.0 == child_slot {}
@@ -1185,6 +1318,7 @@ before `continue;`
         }
 blockend `let Some(output) = self .slot_state(child_slot) .verif_notify_parent_certified(child_hash) else {`
         proof {
+            lemma_wf_states_update(&bef, self, child_slot);
             assert forall|c: BlockId| #[trigger] pre.registered(c) implies self.registered(c) by {
                 assert(bef.registered(c));
                 if c.0 == child_slot {}
@@ -1205,15 +1339,33 @@ rewrite*[R9] `cert.clone()` => `verif_clone_cert(&cert)`
 rewrite*[R9] `block_id.clone()` => `verif_clone_block_id(&block_id)`
 rewrite[R8] `cert .block_hash() .cloned() .expect("notar(-fallback) cert always references a block")` => `verif_cert_block_hash(&cert)`
 requires
+        old(self).wf_states(),
         old(self).fin_ok(),
         // slots stay below u64::MAX (the callers' slot-window check, C04)
         cert.spec_slot().0 < u64::MAX,
         old(self).waiting_ok() && old(self).retained_ok(),
 ensures
+        // [C08.pool_invariant_is_kept C06.pool_invariant_is_kept C03.pool_invariant_is_kept C04.pool_invariant_is_kept]
+        final(self).wf_states(),
         // [C18.finalized_slot_is_backed_by_stored_certificates C10.finalized_slot_is_backed_by_stored_certificates]
         // whatever the certificate is and whatever it decides: the statuses the finality tracker keeps still stand for stored
         // certificates, and the highest finalized slot holds the certificates that prove it - what recover_from_standstill re-broadcasts
         final(self).fin_ok(),
+        // [C03.accepted_certificate_is_stored_and_the_others_stay C18.accepted_certificate_is_stored_and_the_others_stay] in every slot
+        // state the pool keeps afterwards: the certificate sits in its slot (unless that slot was decided before it came), every
+        // other stored certificate is where it was
+        (cert.spec_slot().0 >= old(self).lo() && final(self).slot_states@.contains_key(cert.spec_slot()))
+            ==> certs_added(old(self).st(cert.spec_slot()), final(self).slot_states@[cert.spec_slot()], cert),
+        forall|sl: Slot| (sl != cert.spec_slot() || cert.spec_slot().0 < old(self).lo()) && #[trigger] final(self).slot_states@.contains_key(sl)
+            ==> final(self).slot_states@[sl].certificates == old(self).st(sl).certificates,
+        // [C08.pool_reports_finalized_exactly_when_the_certificates_justify C18.replayed_proof_finalizes_the_slot] the highest finalized
+        // slot moves exactly when the certificate completes the proof of its (not yet decided) slot, and then to that slot if it is higher
+        (cert.spec_slot().0 >= old(self).lo() && cert_finalizes(&old(self).finality_tracker, cert))
+            ==> final(self).hi() == max_int(old(self).hi(), cert.spec_slot().0 as int),
+        !(cert.spec_slot().0 >= old(self).lo() && cert_finalizes(&old(self).finality_tracker, cert)) ==> final(self).hi() == old(self).hi(),
+        // a finalization certificate that arrives first is remembered until the notarization certificate comes
+        (cert is Final && cert.spec_slot().0 >= old(self).lo() && old(self).finality_tracker.st(cert.spec_slot()) is None)
+            ==> final(self).finality_tracker.st(cert.spec_slot()) == Some(FinalizationStatus::FinalPendingNotar),
         final(self).epoch_info == old(self).epoch_info,
         final(self).lo() >= old(self).lo(),
         // [C08.nothing_is_tracked_for_a_decided_slot C03.nothing_is_tracked_for_a_decided_slot] whatever the certificate decides
@@ -1244,12 +1396,13 @@ after `self.slot_state(slot).add_cert(verif_clone_cert(&cert));`
         proof {
             assert forall|c: BlockId| #[trigger] pre.registered(c) implies a.registered(c) by { if c.0 == slot {} }
             lemma_waiting_ok_transfer(&pre, &a);
+            lemma_wf_states_update(&pre, &a, slot);
             // [C08.nothing_is_tracked_for_a_decided_slot C03.nothing_is_tracked_for_a_decided_slot]
             assert(a.retained_ok());
         }
 before `self.handle_finalization(finalization_event);#0`
         let ghost b = *self;
-        proof { lemma_waiting_ok_transfer(&a, &b); }
+        proof { lemma_waiting_ok_transfer(&a, &b); assert(b.slot_states == a.slot_states && b.epoch_info == a.epoch_info); assert(b.finality_tracker.wf()); assert(b.wf_states()); }
 after `self.handle_finalization(finalization_event);#0`
         proof {
             assert forall|p: BlockId, c: BlockId| #[trigger] self.waits(p, c) implies pre.waits(p, c) && c.0.0 >= self.lo() by { assert(b.waits(p, c)); }
@@ -1258,6 +1411,7 @@ after `self.handle_finalization(finalization_event);#0`
 before `self.notify_waiting_children(&block_id);#0`
         let ghost m = *self;
         proof {
+            assert forall|sl: Slot| #[trigger] m.slot_states@.contains_key(sl) implies a.slot_states@.contains_key(sl) && m.slot_states@[sl] == a.slot_states@[sl] by {}
             assert(m.waiting_ok() && m.retained_ok() && m.lo() >= pre.lo());
             assert forall|p: BlockId, c: BlockId| #[trigger] m.waits(p, c) implies pre.waits(p, c) && c.0.0 >= m.lo() by {
                 if !(cert is Notar) { assert(a.waits(p, c)); lemma_waiting_slot_bound(&pre, p, c); }
@@ -1268,24 +1422,38 @@ before `self.notify_waiting_children(&block_id);#0`
         }
 after `self.notify_waiting_children(&block_id);#0`
         let ghost n = *self;
-        proof { lemma_after_notify(&pre, &m, &n, block_id); }
+        proof { lemma_after_notify(&pre, &m, &n, block_id);
+            assert forall|sl: Slot| #[trigger] n.slot_states@.contains_key(sl) implies a.slot_states@.contains_key(sl) && n.slot_states@[sl].certificates == a.slot_states@[sl].certificates by {
+                assert(m.slot_states@.contains_key(sl)); let _ = n.st(sl); let _ = m.st(sl);
+            }
+            lemma_certs_after(&pre, &a, &n, cert);
+        }
 before `self.handle_finalization(finalization_event);#1`
         let ghost b = *self;
-        proof { lemma_waiting_ok_transfer(&a, &b); }
+        proof { lemma_waiting_ok_transfer(&a, &b); assert(b.slot_states == a.slot_states && b.epoch_info == a.epoch_info); assert(b.finality_tracker.wf()); assert(b.wf_states()); }
 before `self.notify_waiting_children(&block_id);#1`
         let ghost m = *self;
         proof {
+            assert forall|sl: Slot| #[trigger] m.slot_states@.contains_key(sl) implies a.slot_states@.contains_key(sl) && m.slot_states@[sl] == a.slot_states@[sl] by {}
             assert forall|p: BlockId, c: BlockId| #[trigger] m.waits(p, c) implies pre.waits(p, c) && c.0.0 >= m.lo() by { assert(b.waits(p, c)); }
             assert forall|p: BlockId, c: BlockId| #[trigger] pre.waits(p, c) && c.0.0 >= m.lo() implies m.waits(p, c) by { assert(b.waits(p, c)); }
         }
 after `self.notify_waiting_children(&block_id);#1`
         let ghost n = *self;
-        proof { lemma_after_notify(&pre, &m, &n, block_id); }
+        proof { lemma_after_notify(&pre, &m, &n, block_id);
+            assert forall|sl: Slot| #[trigger] n.slot_states@.contains_key(sl) implies a.slot_states@.contains_key(sl) && n.slot_states@[sl].certificates == a.slot_states@[sl].certificates by {
+                assert(m.slot_states@.contains_key(sl)); let _ = n.st(sl); let _ = m.st(sl);
+            }
+            lemma_certs_after(&pre, &a, &n, cert);
+        }
 before `self.handle_finalization(finalization_event);#2`
         let ghost b = *self;
-        proof { lemma_waiting_ok_transfer(&a, &b); }
+        proof { lemma_waiting_ok_transfer(&a, &b); assert(b.slot_states == a.slot_states && b.epoch_info == a.epoch_info); assert(b.finality_tracker.wf()); assert(b.wf_states()); }
 after `self.handle_finalization(finalization_event);#2`
         proof {
+            let f2 = *self;
+            assert forall|sl: Slot| #[trigger] f2.slot_states@.contains_key(sl) implies a.slot_states@.contains_key(sl) && f2.slot_states@[sl].certificates == a.slot_states@[sl].certificates by {}
+            lemma_certs_after(&pre, &a, &f2, cert);
             assert forall|p: BlockId, c: BlockId| #[trigger] self.waits(p, c) implies pre.waits(p, c) && c.0.0 >= self.lo() by { assert(b.waits(p, c)); }
             assert forall|p: BlockId, c: BlockId| #[trigger] pre.waits(p, c) && c.0.0 >= self.lo() implies self.waits(p, c) by { assert(b.waits(p, c)); }
         }
@@ -1299,6 +1467,7 @@ after `self.send_repair((slot, block_hash));`
 after `self.send_parent_ready_events(new_parents_ready);#1`
         proof {
             let f = *self;
+            lemma_certs_after(&pre, &a, &f, cert);
             lemma_waiting_ok_transfer(&a, &f);
             assert forall|p: BlockId, c: BlockId| #[trigger] self.waits(p, c) implies pre.waits(p, c) && c.0.0 >= self.lo() by { assert(a.waits(p, c)); lemma_waiting_slot_bound(&pre, p, c); }
             assert forall|p: BlockId, c: BlockId| #[trigger] pre.waits(p, c) && c.0.0 >= self.lo() implies self.waits(p, c) by { assert(a.waits(p, c)); }
@@ -1313,6 +1482,7 @@ rewrite*[R9] `parent_id.clone()` => `verif_clone_block_id(&parent_id)`
 rewrite*[R8] `.notify_parent_certified(` => `.verif_notify_parent_certified(`
 rewrite[R5] `self.s2n_waiting_parent_cert .entry(parent_id) .or_default() .push(block_id);` => `let ghost pw = self.s2n_waiting_parent_cert@; let verif_w = verif_waiting_entry(&mut self.s2n_waiting_parent_cert, parent_id); let ghost w0 = verif_w@; verif_w.push(block_id); proof { assert(self.s2n_waiting_parent_cert@[parent_id]@ == w0.push(block_id)); assert(w0.push(block_id)[w0.len() as int] == block_id); assert forall|c: BlockId| w0.contains(c) implies w0.push(block_id).contains(c) by { let i = choose|i: int| 0 <= i < w0.len() && w0[i] == c; assert(w0.push(block_id)[i] == c); } assert forall|c: BlockId| w0.push(block_id).contains(c) implies w0.contains(c) || c == block_id by { let i = choose|i: int| 0 <= i < w0.push(block_id).len() && w0.push(block_id)[i] == c; if i < w0.len() { assert(w0[i] == c); } } }`
 requires
+        old(self).wf_states(),
         old(self).fin_ok(),
         block_id.0.0 < u64::MAX,
         // ASSUMED (collision resistance of the block hash): a block id names one block, so a repeated registration names the same parent
@@ -1321,6 +1491,8 @@ requires
         block_id.0.0 > parent_id.0.0,
         old(self).waiting_ok() && old(self).retained_ok(),
 ensures
+        // [C08.pool_invariant_is_kept C06.pool_invariant_is_kept C03.pool_invariant_is_kept C04.pool_invariant_is_kept]
+        final(self).wf_states(),
         // [C18.finalized_slot_is_backed_by_stored_certificates C10.finalized_slot_is_backed_by_stored_certificates]
         final(self).fin_ok(),
         final(self).epoch_info == old(self).epoch_info,
@@ -1347,7 +1519,7 @@ before `vassert(block_id.0 > parent_id.0);`
         proof { broadcast use axiom_fresh_slot_state; }
 after `.add_parent(verif_clone_block_id(&block_id), verif_clone_block_id(&parent_id));`
         let ghost b = *self;
-        proof { lemma_waiting_ok_transfer(&pre, &b); }
+        proof { lemma_waiting_ok_transfer(&pre, &b); assert(b.slot_states == pre.slot_states && b.epoch_info == pre.epoch_info); assert(b.finality_tracker.wf()); assert(b.wf_states()); }
 before `self.slot_state(*slot).notify_parent_known(block_hash);`
         let ghost h = *self;
         proof {
@@ -1361,10 +1533,13 @@ after `self.slot_state(*slot).notify_parent_known(block_hash);`
             lemma_waiting_ok_transfer(&h, &k);
             assert(k.retained_ok());
             assert(k.registered(block_id));
+            lemma_wf_states_update(&h, &k, *slot);
+            lemma_st_wf(&k, *slot);
         }
 blockafter `match output {`
         proof {
             let f = *self;
+            lemma_wf_states_update(&k, &f, *slot);
             assert forall|c: BlockId| #[trigger] k.registered(c) implies f.registered(c) by { if c.0 == *slot {} }
             lemma_waiting_ok_transfer(&k, &f);
             assert(f.retained_ok());
@@ -1406,19 +1581,40 @@ pub fn verif_fresh_receiver_of_a_bundle(epoch_info: Arc<ValidatorEpochInfo>, vot
     fresh.add_cert(cert)
 }
 // the same scenario for a bundle from the first 2 * SLOTS_PER_EPOCH slots of the chain: accepted (so the failing obligation above is
-// about the window, not about a fresh pool as such)
-pub fn verif_fresh_receiver_of_an_early_bundle(epoch_info: Arc<ValidatorEpochInfo>, votor_event_channel: Sender<PoolEvent>,
-        repair_channel: Sender<BlockId>, cert: ValidatedCert) -> (r: Result<(), AddCertError>)
+// about the window, not about a fresh pool as such), and the receiver reaches the sender's highest finalized slot - whichever of
+// the two proofs the bundle starts with
+pub fn verif_fresh_receiver_of_an_early_bundle_fast(epoch_info: Arc<ValidatorEpochInfo>, votor_event_channel: Sender<PoolEvent>,
+        repair_channel: Sender<BlockId>, cert: ValidatedCert) -> (r: (Result<(), AddCertError>, PoolImpl))
     requires
         spec_fresh_slot_state(Slot(0), epoch_info).wf_epoch(),
         cert.cert.spec_slot().0 < 2 * SLOTS_PER_EPOCH,
+        // the bundle of a sender whose highest finalized slot h > 0 was fast-finalized: [FastFinal(h)]
+        cert.cert is FastFinal && cert.cert.spec_slot().0 > 0,
     ensures
-        // [C18.fresh_receiver_accepts_an_early_bundle]
-        r is Ok,
+        // [C18.fresh_receiver_of_an_early_bundle_reaches_the_senders_finalized_slot]
+        r.0 is Ok && r.1.hi() == cert.cert.spec_slot().0,
 {
     let mut fresh = PoolImpl::new(epoch_info, votor_event_channel, repair_channel);
     proof { broadcast use axiom_fresh_slot_state; }
-    fresh.add_cert(cert)
+    let res = fresh.add_cert(cert);
+    (res, fresh)
+}
+pub fn verif_fresh_receiver_of_an_early_bundle_slow(epoch_info: Arc<ValidatorEpochInfo>, votor_event_channel: Sender<PoolEvent>,
+        repair_channel: Sender<BlockId>, fin: ValidatedCert, notar: ValidatedCert) -> (r: (Result<(), AddCertError>, Result<(), AddCertError>, PoolImpl))
+    requires
+        spec_fresh_slot_state(Slot(0), epoch_info).wf_epoch(),
+        fin.cert.spec_slot().0 < 2 * SLOTS_PER_EPOCH,
+        // the bundle of a sender whose highest finalized slot h > 0 was finalized the slow way: [Final(h), Notar(h)], in this order
+        fin.cert is Final && notar.cert is Notar && notar.cert.spec_slot() == fin.cert.spec_slot() && fin.cert.spec_slot().0 > 0,
+    ensures
+        // [C18.fresh_receiver_of_an_early_bundle_reaches_the_senders_finalized_slot]
+        r.0 is Ok && r.1 is Ok && r.2.hi() == fin.cert.spec_slot().0,
+{
+    let mut fresh = PoolImpl::new(epoch_info, votor_event_channel, repair_channel);
+    proof { broadcast use axiom_fresh_slot_state; }
+    let r1 = fresh.add_cert(fin);
+    let r2 = fresh.add_cert(notar);
+    (r1, r2, fresh)
 }
 
 impl PoolImpl {
